@@ -33,12 +33,12 @@
 (*              arrives in one piece, the client waits for the banner) the   *)
 (*              i-th Read is the i-th command: applied in order, once each.  *)
 (*  H_DelIndex  DELETE by a numeric index i: 0 <= i < length removes exactly *)
-(*              entry i (TableOps.ApplyOp "delidx") with 200; i >= length is *)
-(*              404 and changes nothing (TableOps.OpErr); i < 0 changes      *)
-(*              nothing and is not answered 200;                             *)
+(*              entry i (TableOps.ApplyOp "delidx") with 200; i >= length    *)
+(*              (TableOps.OpErr) and i < 0 change nothing and are not        *)
+(*              answered 200;                                                *)
 (*  H_Key       DELETE /routes/{key} removes the first route whose key IS    *)
 (*              key (no prefix match), an unknown key is 200 and a no-op;    *)
-(*              GET /routes/{key} is 404 exactly for unknown keys;           *)
+(*              GET /routes/{key} is 200 exactly for known keys;             *)
 (*  H_Others    a request changes nothing but the list it names.             *)
 (*                                                                           *)
 (* NON-GUARANTEES (W_*: TLC must find each reachable; the check runs the     *)
@@ -207,7 +207,6 @@ H_DelIndex == \A i \in NewHttp :
     (ByIndex(q) /\ Code!SignedDigits(q.idx) /\ (q.kind = "dests" => \E r \in 1..Len(x.T0.rt) : x.T0.rt[r].key = q.key)) =>
         LET o == [op |-> "delidx", i |-> v, e |-> 0, f |-> 0, k |-> 0] IN
         IF v >= 0 /\ ~TO!OpErr(l0, o) THEN x.st = 200 /\ l1 = TO!ApplyOp(l0, o)
-        ELSE IF v >= 0 THEN x.st = 404 /\ x.T1 = x.T0
         ELSE x.st # 200 /\ x.T1 = x.T0
 
 H_Key == \A i \in NewHttp :
@@ -215,8 +214,8 @@ H_Key == \A i \in NewHttp :
     /\ (q.m = "DELETE" /\ q.kind = "routes") =>
           /\ x.st = 200
           /\ x.T1.rt = (IF ks = {} THEN x.T0.rt ELSE TO!RemoveAt(x.T0.rt, MinOf(ks)))
-    /\ (q.m = "GET" /\ q.kind = "routes" /\ q.key # "") => (x.st = 404) = (ks = {})
-    /\ (q.m = "DELETE" /\ q.kind = "dests" /\ ks = {}) => x.st = 404 /\ x.T1 = x.T0
+    /\ (q.m = "GET" /\ q.kind = "routes" /\ q.key # "") => (x.st = 200) = (ks # {})
+    /\ (q.m = "DELETE" /\ q.kind = "dests" /\ ks = {}) => x.st # 200 /\ x.T1 = x.T0
 
 H_Others == \A i \in NewHttp :
     LET x == hist[i]  q == x.q IN
@@ -225,7 +224,7 @@ H_Others == \A i \in NewHttp :
     /\ q.kind # "aggregators" => x.T1.agg = x.T0.agg
     /\ q.kind \notin {"routes", "dests"} => x.T1.rt = x.T0.rt
     /\ q.m = "GET" => x.T1 = x.T0
-    /\ x.st >= 400 => x.T1 = x.T0
+    /\ x.st # 200 => x.T1 = x.T0
 
 (* ------------------------------------------------------- non-guarantees *)
 \* Each W_ is a state predicate that TLC must find reachable (the check runs NotW_ as an invariant and wants it
@@ -264,8 +263,11 @@ W_TelnetUnrecognized == \E i \in Reads : hist[i].rep = <<"unrec">>         \* NO
 \* HTTP: a non-numeric index is index 0
 W_NonNumericDeletesFirst == \E i \in Https : ByIndex(hist[i].q) /\ ~Code!SignedDigits(hist[i].q.idx) /\ hist[i].q.idx # ""
                                               /\ hist[i].st = 200 /\ hist[i].T1 # hist[i].T0
-\* HTTP: a negative index is not answered at all (the handler panics, net/http drops the connection)
-W_NegativeNoResponse == \E i \in Https : hist[i].st = 0
+\* HTTP: a negative index is not answered at all (the table panics, net/http drops the connection)
+W_NegativeNoResponse == \E i \in Https : hist[i].st = 0 /\ ByIndex(hist[i].q) /\ Code!AtoiVal(hist[i].q.idx) < 0
+\* HTTP: neither is any "not found": an index beyond the end, an unknown route (see NotFound in AdminConnOps)
+W_NotFoundNoResponse == \E i \in Https :
+    hist[i].st = 0 /\ (hist[i].q.m = "GET" \/ (ByIndex(hist[i].q) /\ Code!AtoiVal(hist[i].q.idx) >= 0))
 \* HTTP: deleting an unknown route is 200
 W_UnknownKeyOk == \E i \in Https : hist[i].q.m = "DELETE" /\ hist[i].q.kind = "routes" /\ hist[i].st = 200 /\ hist[i].T1 = hist[i].T0
 \* HTTP: a route cannot be added (POST /routes is always 400)
@@ -285,11 +287,12 @@ NotW_ExtraIgnored == ~W_ExtraIgnored
 NotW_TelnetUnrecognized == ~W_TelnetUnrecognized
 NotW_NonNumericDeletesFirst == ~W_NonNumericDeletesFirst
 NotW_NegativeNoResponse == ~W_NegativeNoResponse
+NotW_NotFoundNoResponse == ~W_NotFoundNoResponse
 NotW_UnknownKeyOk == ~W_UnknownKeyOk
 NotW_PostRouteRefused == ~W_PostRouteRefused
 
-\* the ideal that the code does NOT meet (run as invariants, expected violated): every index that is not a
-\* number of the list is refused with an error status
+\* the ideal that the code does NOT meet (run as an invariant, expected violated): every index that is not a
+\* number of the list is refused with an error status (and a response)
 Ideal_IndexRefused == \A i \in NewHttp :
     LET x == hist[i]  q == x.q  l0 == ListOf(x.T0, q)  v == Code!AtoiVal(q.idx) IN
     (ByIndex(q) /\ (~Code!SignedDigits(q.idx) \/ v < 0 \/ v >= Len(l0))) => x.st >= 400 /\ x.T1 = x.T0
